@@ -108,25 +108,6 @@ func c12Gen() *rapid.Generator[c12Case] {
 	})
 }
 
-func sortedCopy(s []string) []string {
-	out := append([]string{}, s...)
-	sort.Strings(out)
-	return out
-}
-
-func sameSet(a, b []string) bool {
-	a, b = sortedCopy(a), sortedCopy(b)
-	if len(a) != len(b) {
-		return false
-	}
-	for i := range a {
-		if a[i] != b[i] {
-			return false
-		}
-	}
-	return true
-}
-
 // c12Surfaces compares every current graph query surface of index i0 with the active edges of the model.
 // liveVec: ids that currently have a vector; dead: ids that were deleted and not re-added.
 func c12Surfaces(e *engine.Engine, m *Model, withConnections bool) string {
@@ -273,18 +254,6 @@ func c12Surfaces(e *engine.Engine, m *Model, withConnections bool) string {
 		}
 	}
 	return ""
-}
-
-func uniq(s []string) []string {
-	seen := map[string]bool{}
-	var out []string
-	for _, x := range s {
-		if !seen[x] {
-			seen[x] = true
-			out = append(out, x)
-		}
-	}
-	return out
 }
 
 // c12DeadExplained: for every node of index i0 that is not readable in the recovered engine, every live edge at
